@@ -94,7 +94,7 @@ func (w *world) canonInt(u uint64) any {
 	if u >= 4000000000 && u < 4000000000+1000000 {
 		return fmt.Sprintf("$s%d", u-4000000000) // the harness' "no such session" ids, as the model sees them
 	}
-	if u > 1<<32 {
+	if u > 1<<32 && u != 1<<53 {
 		return fmt.Sprintf("$P%d", u)
 	}
 	return u
